@@ -117,7 +117,7 @@ export class CompilePool {
     for (const w of this.workers) {
       try {
         w.proc.stdin.end();
-        w.proc.kill("SIGKILL");
+        if (!process.env.VERIF_COV) w.proc.kill("SIGKILL"); // VERIF_COV (maintenance): let an instrumented worker exit at EOF and write its profile
       } catch {}
     }
   }
